@@ -1,5 +1,6 @@
 import Duckling.Model.Interp
 import Duckling.Lemmas.Assoc
+import Duckling.Lemmas.ScopedRef
 /-
   C08 — blocks see and update outer variables; what they create dies with them.
 
@@ -17,8 +18,18 @@ import Duckling.Lemmas.Assoc
   * `C08_flag_untouched`          the parent's temp variables (the IF flag) are exactly what they were;
   * `C08_fresh_iteration`         each loop iteration starts from the parent's state, not from the previous iteration's child;
   * `C08_parallel_exit_adds`      START / STARTENV: everything the file defined or assigned is visible afterwards;
-  The refinement to a scoped stack-of-frames semantics is exercised by the correspondence (reference
-  interpreter `harness/refinterp.py`), not proved.
+  * `C08_refines_scoped`          **refinement**: the copy-in / copy-back machine (one full dictionary per live stack: entering copies,
+                                   assignment writes the current one, leaving overwrites in the parent's dictionary the names it already had
+                                   and drops the child) is the textbook scoped stack of frames (`Spec/Scoped.lean`: lookup innermost-out, assign to
+                                   the owning frame or create in the innermost one, push an empty frame, pop) — after ANY history of assignments,
+                                   block entries and exits, on any nesting depth, the dictionary the compiler is working with reads exactly what
+                                   the frames read: every visible name with its current value, no name a finished block created.  Invariant by
+                                   induction over the operations (`refines_step`): domains agree at every depth, current values agree, frames
+                                   do not shadow;
+  * `C08_machine_is_interpreter`  the three operations of that machine are what the interpreter does to the user variables: `enter`,
+                                   `assocSet` (VAR, counters, parameters), `exitNormal`.
+  That the interpreter performs these operations at the right moments on every path (the walk over `exec`) is the content of the
+  algebraic laws above together with the correspondence against the reference interpreter `harness/refinterp.py`.
 -/
 namespace Duckling.Props.C08
 open Duckling
@@ -69,5 +80,24 @@ theorem C08_var_assign (u : List (Str × Val)) (x : Str) (v : Val) :
     assocGet (assocSet u x v) x = some v ∧ ∀ y, y ≠ x → assocGet (assocSet u x v) y = assocGet u y :=
   ⟨assocGet_assocSet_same u x v, fun y hy => assocGet_assocSet_other u x y v hy⟩
 
+
+/-- **the copy-in / copy-back discipline refines the scoped stack of frames** — any history of operations, any depth -/
+theorem C08_refines_scoped (e : Spec.Frame) (ops : List Spec.ScOp) (k : Str) :
+    (match ops.foldl cstep [e] with
+     | cur :: _ => assocGet cur k
+     | [] => none) = Spec.lookup (ops.foldl Spec.step [e]) k :=
+  (refines_run e ops).2.2.2 k
+
+/-- the machine of `C08_refines_scoped` is the interpreter's environment handling -/
+theorem C08_machine_is_interpreter (p c : VEnv) (k : Str) (v : Val) :
+    p.enter.user = p.user ∧ (p.exitNormal c).user = copyBack p.user c.user ∧
+    cstep [p.user] (.assign k v) = [assocSet p.user k v] ∧ cstep [p.user] .enter = [p.enter.user, p.user] ∧
+    cstep [c.user, p.user] .exit = [(p.exitNormal c).user] := ⟨rfl, rfl, rfl, rfl, rfl⟩
+
+/-- a concrete history (non-vacuity): x is assigned in a block and survives it, y is created in the block and dies -/
+example :
+    let ops : List Spec.ScOp := [.assign "x".toList (.int 1), .enter, .assign "x".toList (.int 2), .assign "y".toList (.int 3), .exit]
+    Spec.lookup (ops.foldl Spec.step [[]]) "x".toList = some (.int 2) ∧ Spec.lookup (ops.foldl Spec.step [[]]) "y".toList = none := by
+  refine ⟨?_, ?_⟩ <;> rfl
 
 end Duckling.Props.C08
